@@ -33,7 +33,8 @@ BINDING = {"assign", "assign_noread", "assign_nl", "aug", "walrus", "for", "def"
            "fromimport", "assign_read_before", "destructure", "withcomp", "global_assign", "global_read",
            "global_aug", "nonlocal_assign", "nonlocal_read", "nonlocal_aug", "param", "param_nl",
            "param_default", "kwonly", "vararg", "walrus_nonlocal", "for_nonlocal", "target", "target_tuple",
-           "param_default_same", "lam_vararg", "lam_kwarg", "lam_kwonly", "lam_posonly"}
+           "param_default_same", "lam_vararg", "lam_kwarg", "lam_kwonly", "lam_posonly", "param_same", "kwonly_same",
+           "lam_kwonly_same", "walrus_in_comp"}
 
 
 def nontrivial(tree):
@@ -74,7 +75,7 @@ def cpython_inlining_bug_shape(tree):
     # also uses the same name itself: after the comprehension the function reads the leaked
     # iteration value instead of its own variable
     for node, path in scope.walk(tree):
-        if node[0] not in ("func", "class"):
+        if node[0] not in ("func", "class", "lambda", "comp"):
             continue
         for t in node[2]:
             if t[0] != "comp" or t[1] not in ("target", "target_tuple"):
@@ -119,7 +120,8 @@ def _enum_shard(item):
     family, idx, nshards, fraction, seed = item
     part = new_part()
     gen = {"chain1": scope.trees_chain1, "chain2": scope.trees_chain2, "sib2": scope.trees_sib2,
-           "chain3": scope.trees_chain3}[family]
+           "chain3": scope.trees_chain3, "chain4focus": scope.trees_chain4_focus,
+           "classtowers": scope.trees_class_towers}[family]
     rng = random.Random(seed)
     for i, tree in enumerate(gen()):
         keep = fraction >= 1.0 or rng.random() < fraction   # same decisions in every shard
@@ -165,6 +167,8 @@ def run(report):
     items += [(_enum_shard, ("chain2", i, ns, frac2, seed)) for i in range(ns)]
     items += [(_enum_shard, ("sib2", i, ns, frac2, seed + 1)) for i in range(ns)]
     items += [(_enum_shard, ("chain3", i, ns, 0.004 if quick else 0.08, seed + 2)) for i in range(ns)]
+    items += [(_enum_shard, ("chain4focus", i, ns, 1.0, seed + 3)) for i in range(ns)]
+    items += [(_enum_shard, ("classtowers", i, 4, 1.0, seed + 4)) for i in range(4)]
     items += [(_drawn_shard, (env.sub_seed(report.seed, "C06", i), 120 if quick else 5000)) for i in range(env.NPROC)]
     # host dimension: the symbol-table walk has version-specific paths
     from .. import hosts
